@@ -843,6 +843,15 @@ def cases(tier, seed):
         add('simple', b + ['plantclique'], base=bd, unmeetable=True)
         add('simple', b + ['addedges', 1, 1], base=bd, unmeetable=True)
         add('simple', b + ['splitedges', '0.5'], base=bd, unmeetable=True)
+    # bases with more edges than vertices: a request |V| < k <= |E| is legal
+    # (seeded change C15-s22 compared k with the number of vertices)
+    for b, ks in ((['complete', 4], range(3, 8)), (['complete', 5], (5, 6, 10, 11)),
+                  (['torus', 3, 3], (9, 10, 18, 19)), (['complete', 2, 3], (6, 7, 12, 13))):
+        bd = det_base('simple', [S(t) for t in b])
+        m = len(bd['edges'])
+        for k in ks:
+            add('simple', b + ['splitedges', k], base=bd, unmeetable=(k > m), mode='plain',
+                max_dev=2 if not thorough else 3, max_execs=3000 if not thorough else 30000)
     bd = det_base('simple', ['grid', '2', '2'])
     add('simple', ['grid', 2, 2, 'plantclique', 3, 'addedges', 1], base=bd, mode='plain',
         max_dev=3, max_execs=5000)
